@@ -43,6 +43,18 @@ def explore(wd, shards, extra=None):
                 aborted += 1
                 frm = j['aborted_run'] + 1
                 continue
+            cur = os.path.join(tdir, 'shard-%02d.current' % k)
+            if p.returncode != 0 and os.path.exists(cur):
+                # the process died without reaching the panic hook (segfault, abort inside a destructor ...): the run
+                # named by the marker is recorded as aborted and the shard resumes after it
+                c = json.load(open(cur))
+                with open(os.path.join(tdir, 'shard-%02d.ndjson' % k), 'a') as fh:
+                    fh.write(json.dumps({'seq': 1, 'tid': 0, 'role': 'main', 'site': 'reset', 'run': c['run'], 'scenario': c['scenario'], 'items': []}) + '\n')
+                    fh.write(json.dumps({'seq': 2, 'tid': 0, 'role': 'main', 'site': 'abort', 'run': c['run'],
+                                         'msg': 'process died with status %d: %s' % (p.returncode, (p.stderr or '')[-200:].replace('\n', ' '))}) + '\n')
+                aborted += 1
+                frm = c['run'] + 1
+                continue
             die_tool('nucleo-sched shard %d failed rc=%d: %s %s' % (k, p.returncode, p.stdout[-500:], p.stderr[-1500:]))
         die_tool('nucleo-sched shard %d: too many aborted runs' % k)
 
